@@ -22,6 +22,12 @@ import (
 
 const stream = "c07"
 
+// cases per configuration of the universal stream (universal_test.go)
+const (
+	anyQuick    = 900
+	anyThorough = 3500
+)
+
 // ---- configurations ---------------------------------------------------------------------------------
 
 type config struct {
@@ -1165,7 +1171,7 @@ func readerSelfTest() []string {
 func TestProp(t *testing.T) {
 	env := vh.GetEnv()
 	rep := vh.NewReport("C07", "exploration")
-	rep.Rule("cases walk (stride) over endpoint{sign_in,sign_out,start,callback,start->callback->sign_in flow, forged-state callback->sign_in flow, start->tampered state->callback->sign_in flow (the last three judged as a whole against what the client supplied)} x redirect-URI template (" + strconv.Itoa(len(templates)) + " parser-differential shapes in 11 families incl. look-alikes derived from the configured roots (every inner dot replaced/deleted)) x mode{valid signature, signature/timestamp sweep} per root-domain configuration {single, leading dot, multiple, nested, nested+multiple, three-label, two-label public suffix, five-label, regexp metacharacter in the configured string, upper-case}; signature variant (41: encodings, mismatches, other hashes, and well-formed HMACs under 21 other specific keys), timestamp variant (30), parameter duplication (9), placement (query/body), cookie state, method and wire form are drawn per case. distinct = the tuple (endpoint, step, template, position, duplication, placement, sig variant, ts variant, cookie, method, wire, config kind) of every request sso answered")
+	rep.Rule("cases walk (stride) over endpoint{sign_in,sign_out,start,callback,start->callback->sign_in flow, forged-state callback->sign_in flow, start->tampered state->callback->sign_in flow (the last three judged as a whole against what the client supplied)} x redirect-URI template (" + strconv.Itoa(len(templates)) + " parser-differential shapes in 11 families incl. look-alikes derived from the configured roots (every inner dot replaced/deleted)) x mode{valid signature, signature/timestamp sweep} per root-domain configuration {single, leading dot, multiple, nested, nested+multiple, three-label, two-label public suffix, five-label, regexp metacharacter in the configured string, upper-case}; signature variant (41: encodings, mismatches, other hashes, and well-formed HMACs under 21 other specific keys), timestamp variant (30), parameter duplication (9), placement (query/body), cookie state, method and wire form are drawn per case. distinct = the tuple (endpoint, step, template, position, duplication, placement, sig variant, ts variant, cookie, method, wire, config kind) of every request sso answered. Stream c07-any (universal clause): a strided walk over route{callback, sign_in, sign_out, start, profile, validate, redeem, refresh, static, robots.txt, ping, /, unknown} x template x identity-provider error slot{absent, the 16 RFC 6749 4.1.2.1 / OIDC 3.1.2.6 codes, unknown word, case variant, padded, empty, duplicated, URL, vendor code}; path spelling (canonical / 20 non-canonical: no slug, wrong slug, case, slashes, dot segments, encoded, foreign-host prefixes, absolute-form), shape of the redirect material {top level, redirect_sig, nested in redirect_uri, tricky outer, in the state (direct / nested / tricky outer), other URL-valued parameter, error_uri} plus an optional second validly signed shape, signed / swept / unsigned, code, error_description, error_uri, CSRF cookie, session cookie, method, body/query placement, Host / X-Forwarded-Host and Accept are drawn per case; every response is judged by the same route-independent clauses (U1 domain of every Location / Refresh reading, U2 signature for IdP logins, minted codes and sign-out redirects); distinct = that tuple")
 	rep.Assume("the fake IdP answers as scripted; Go's net/http client hands the Location header through unmodified (apart from trimming optional whitespace)")
 	rep.Assume("timestamps are generated at fixed offsets (>= 60 s away from the five-minute edge) from the instant the case is built; a request takes far less than the 10 s guard band")
 	rep.Assume("future timestamps, hosts with non-ASCII characters whose IDNA mapping decides membership, and URL schemes are don't-cares (counted, not judged)")
@@ -1179,13 +1185,22 @@ func TestProp(t *testing.T) {
 		t.Fatalf("reader self-test failed")
 	}
 
+	if bad := refreshSelfTest(); len(bad) > 0 {
+		rep.Inconclusive("the Refresh / meta-refresh reader failed its self-test: " + bad[0])
+		rep.Finish()
+		t.Fatalf("refresh reader self-test failed: %v", bad)
+	}
+
 	nConfigs := env.Pick(10, 20)
 	perConfig := env.Pick(800, 7000)
+	perConfigAny := env.Pick(anyQuick, anyThorough)
 	only, skipAll := env.Only(stream)
-	if skipAll {
+	onlyAny, skipAny := env.Only(streamAny)
+	if skipAll && skipAny {
 		rep.Finish()
 		return
 	}
+	replaying := only >= 0 || onlyAny >= 0
 	start := time.Now()
 	// The provider's HTTP client keeps two idle connections per IdP host, so a few workers per stack
 	// (and several stacks side by side) avoid a TLS handshake per IdP call.
@@ -1204,6 +1219,9 @@ func TestProp(t *testing.T) {
 	vh.ForEach(nConfigs, par, func() int {
 		if only >= 0 {
 			return only / perConfig
+		}
+		if onlyAny >= 0 {
+			return onlyAny / perConfigAny
 		}
 		return -1
 	}(), func(ci int) {
@@ -1227,7 +1245,17 @@ func TestProp(t *testing.T) {
 		if only >= 0 {
 			o = only - lo
 		}
-		vh.ForEach(perConfig, workers, o, func(j int) { rn.runCase(lo + j) })
+		if !skipAll {
+			vh.ForEach(perConfig, workers, o, func(j int) { rn.runCase(lo + j) })
+		}
+		if !skipAny {
+			loAny := ci * perConfigAny
+			oAny := -1
+			if onlyAny >= 0 {
+				oAny = onlyAny - loAny
+			}
+			vh.ForEach(perConfigAny, workers, oAny, func(j int) { rn.runAny(loAny + j) })
+		}
 		if n := as.ErrLog.Panics(); n > 0 {
 			rep.Count("handler_panics", n)
 		}
@@ -1235,7 +1263,25 @@ func TestProp(t *testing.T) {
 	})
 	rep.Extra("wall_workload_s", time.Since(start).Seconds())
 	rep.Extra("templates", len(templates))
-	if only < 0 {
+	stdArmed, allArmed := armedCodes()
+	rep.Count("any_standard_idp_error_codes_reaching_callback_with_own_state_foreign_target", stdArmed)
+	rep.Extra("any_callback_idp_error_with_own_state_foreign_target_by_code", armedByCode())
+	rep.Count("any_idp_error_classes_reaching_callback_with_own_state_foreign_target", allArmed)
+	if !replaying {
+		rep.Floor("any_requests", perConfigAny*nConfigs*9/10)
+		rep.Floor("any_3xx", 300)
+		rep.Floor("any_redirect_values_inspected", 300)
+		rep.Floor("any_callback_idp_error_with_own_state", 150)
+		rep.Floor("any_callback_idp_error_with_own_state_foreign_target", 100)
+		rep.Floor("any_callback_no_error_with_own_state", 30)
+		rep.Floor("any_standard_idp_error_codes_reaching_callback_with_own_state_foreign_target", len(stdIdPErrors))
+		rep.Floor("any_idp_redirects", 10)
+		rep.Floor("any_code_redirects", 3)
+		rep.Floor("any_signout_redirects", 10)
+		rep.Floor("any_path_cleanup_redirects", 20)
+		rep.Floor("any_error_pages_for_unsigned", 200)
+	}
+	if !replaying {
 		rep.Floor("code_redirects", 50)
 		rep.Floor("idp_redirects", 50)
 		rep.Floor("signout_redirects", 50)
